@@ -417,3 +417,44 @@ Proof.
       [|exact init_cov|exact Hrun]. intros; eapply step_cov; eauto. }
   exact (proj1 (proj1 (proj1 J)) t c L x Hx).
 Qed.
+
+(* ================================================================ quiescence *)
+(* a partition reader whose member's queue is empty has had everything below its next offset
+   delivered (to some member) *)
+Theorem drained_reader_delivered : forall cfg ls s, cfg_start cfg = FirstOffset ->
+  run (step cfg) init ls = Some s ->
+  forall r p n, In p (rd_readers (st_rd s r)) -> pr_next p = Some n -> rd_msgs (st_rd s r) = [] ->
+  forall x, 0 <= x < n -> exists r' v, In (EvDeliver r' v (pr_tp p) x) (st_hist s).
+Proof.
+  intros cfg ls s Hf Hrun r p n Hp Hn Hq x Hx.
+  assert (J : inv_cov s /\ hist_ok P_cov (st_hist s)).
+  { eapply (@inv_run _ _ (step cfg) (fun y => inv_cov y /\ hist_ok P_cov (st_hist y)));
+      [|exact init_cov|exact Hrun]. intros; eapply step_cov; eauto. }
+  destruct J as [[[Ga Gb] Hr] _].
+  destruct (Hr r) as (_ & _ & _ & D & _ & _). specialize (D p Hp). rewrite Hn, Hq in D.
+  destruct D as [A|[[]|A]].
+  - exact (A x Hx).
+  - specialize (Gb _ _ _ _ A). apply Gb. lia.
+Qed.
+
+Definition assignment_covers_existing (existing : list tp) (g : N) (h : list event) : Prop :=
+  forall t, In t existing -> exists r mid asg, In (EvAssign r mid g asg) h /\ In t asg.
+
+(* member r has drained partition t: its reader of t stands at the high watermark, nothing is
+   queued *)
+Definition drained (s : state) (r : nat) (t : tp) : Prop :=
+  exists p, In p (rd_readers (st_rd s r)) /\ pr_tp p = t /\
+            pr_next p = Some (hw_of (st_hw s) t) /\ rd_msgs (st_rd s r) = [].
+
+Theorem quiescent_all_delivered : forall cfg ls s existing g, cfg_start cfg = FirstOffset ->
+  run (step cfg) init ls = Some s ->
+  assignment_covers_existing existing g (st_hist s) ->
+  (forall r mid asg t, In (EvAssign r mid g asg) (st_hist s) -> In t asg -> drained s r t) ->
+  forall t, In t existing -> forall x, 0 <= x < hw_of (st_hw s) t ->
+    exists r' v, In (EvDeliver r' v t x) (st_hist s).
+Proof.
+  intros cfg ls s existing g Hf Hrun Hcov Hdr t Ht x Hx.
+  destruct (Hcov t Ht) as [r [mid [asg [Ha Hin]]]].
+  destruct (Hdr r mid asg t Ha Hin) as [p [Hp [Htp [Hn Hq]]]].
+  rewrite <- Htp. eapply drained_reader_delivered; eauto.
+Qed.
